@@ -144,14 +144,23 @@ FUNCTIONS['EXP'] = wrap_ufunc(np.exp)
 
 
 def xfact(number, fact=math.factorial, limit=0):
-    return np.nan if number < limit else int(fact(int(number or 0)))
+    if number < limit:
+        return np.nan
+    number = int(number or 0)
+    if number > 400:  # 171! and 301!! already exceed the largest double.
+        return np.inf
+    res = int(fact(number))
+    try:
+        return res if res < 2 ** 53 else float(res)
+    except OverflowError:
+        return np.inf
 
 
 FUNCTIONS['FACT'] = wrap_ufunc(xfact)
 
 
 def _factdouble(x):
-    return np.multiply.reduce(np.arange(max(x, 1), 0, -2))
+    return math.prod(range(int(max(x, 1)), 0, -2))
 
 
 def xfactdouble(number):
